@@ -299,3 +299,6 @@ func verifDump(b *strings.Builder, v reflect.Value, path string, depth int) {
 		fmt.Fprintf(b, "%s=(%s)\n", path, v.Kind())
 	}
 }
+
+// VerifBufferPos returns the current write position of b.
+func VerifBufferPos(b *Buffer) int64 { return b.pos }
